@@ -47,6 +47,7 @@ def gen_cases(ctx):
         entry = rng.choice(["Project.sync", "sync_projects", "Job.sync", "sync_jobs"])
         par = rng.choice([2, True])
         uncommon = rng.random() < 0.5
+        symlinks = rng.choice([0, 0, 0, 1, 2, 3])
         if mode == "P":
             opts["strategy"] = rng.choice(["always", "never", "update"])
             opts["doc_sync"] = rng.choice(["update", "NO_SYNC", "bykey_regex"])
@@ -56,7 +57,7 @@ def gen_cases(ctx):
                 src["jobs"].setdefault(str(k), {"files": syncgen.rand_files(rng), "doc": syncgen.rand_doc(rng)})
         if ctx.take(i):
             yield {"mode": mode, "src": src, "dst": dst, "opts": opts, "entry": entry, "parallel": par,
-                   "uncommon": uncommon}
+                   "uncommon": uncommon, "symlinks": symlinks if mode == "D" else 0}
 
 
 def run_entry(D, S, src_spec, dst_spec, opts, entry, flog, dlog, uncommon=False, **extra):
@@ -91,17 +92,32 @@ def mode_dry(ctx, case):
     src_spec, dst_spec, opts, entry = case["src"], case["dst"], case["opts"], case["entry"]
     S, D = syncgen.build(ctx, src_spec, "s"), syncgen.build(ctx, dst_spec, "d")
     S2, D2 = syncgen.build(ctx, src_spec, "s2"), syncgen.build(ctx, dst_spec, "d2")
+    extra = {}
+    if case.get("symlinks"):
+        # source jobs hold a symbolic link among their files; the destination may hold a regular file of that name
+        ctx.count("dry_runs_with_symlinked_source_files")
+        for P, spec, is_src in ((S, src_spec, True), (S2, src_spec, True), (D, dst_spec, False), (D2, dst_spec, False)):
+            for key in sorted(spec["jobs"])[:2]:
+                job = P.open_job(syncgen.sp_of(key))
+                if is_src:
+                    sig.write_file(job.fn("ln_target.dat"), "linked content")
+                    if not os.path.lexists(job.fn("ln.dat")):
+                        os.symlink("ln_target.dat", job.fn("ln.dat"))
+                elif case["symlinks"] > 1 and not os.path.lexists(job.fn("ln.dat")):
+                    sig.write_file(job.fn("ln.dat"), "regular file in the destination")
+        if case["symlinks"] % 2:
+            extra["follow_symlinks"] = False
     before = (model.snapshot(S.path, with_mtime=True), model.snapshot(D.path, with_mtime=True))
     with fsmon.Session([S.path, D.path], readonly=[S.path, D.path]) as sess:
         with contextlib.redirect_stdout(io.StringIO()):
-            err = run_entry(D, S, src_spec, dst_spec, opts, entry, [], [], uncommon=case.get("uncommon", False), dry_run=True)
+            err = run_entry(D, S, src_spec, dst_spec, opts, entry, [], [], uncommon=case.get("uncommon", False), dry_run=True, **extra)
     if err == "skip":
         return
     after = (model.snapshot(S.path, with_mtime=True), model.snapshot(D.path, with_mtime=True))
     ctx.monitor("dry_run_readonly")
     d2_before = model.snapshot(D2.path)
     with contextlib.redirect_stdout(io.StringIO()):
-        err2 = run_entry(D2, S2, src_spec, dst_spec, opts, entry, [], [], uncommon=case.get("uncommon", False))
+        err2 = run_entry(D2, S2, src_spec, dst_spec, opts, entry, [], [], uncommon=case.get("uncommon", False), **extra)
     would_change = model.snapshot(D2.path) != d2_before
     if sess.policy_hits or before != after:
         evs = [h[1] for h in sess.policy_hits]
